@@ -559,6 +559,13 @@ func (s *Scope) evalCall(e ECall) Term {
 				}
 			}
 			return T("("+fn+" "+a.S+")", SInt)
+		case "strcat": // concatenation as a function (the symbol the code's string/byte concatenations are tied to)
+			as := args()
+			cat := "strcat_" + sanitize(string(as[0].Sort))
+			w.DeclareFun(cat, []Sort{as[0].Sort, as[1].Sort}, as[0].Sort)
+			r := T("("+cat+" "+as[0].S+" "+as[1].S+")", as[0].Sort)
+			r.GoT = as[0].GoT
+			return r
 		case "utf8enc": // UTF-8 encoding of a scalar value (the function string(rune) computes)
 			v := s.Eval(e.Args[0])
 			so := w.SeqSort(SInt)
